@@ -69,7 +69,8 @@ def _fork():
 
 
 def _log(*e):
-    if CTX is not None:
+    # nothing is recorded while a hung run is being unwound (primitives return spuriously then)
+    if CTX is not None and not detsched.SCHED.aborting:
         CTX.ev.append(e)
 
 
@@ -340,6 +341,9 @@ def run_case(case):
         v, e, s = detsched.run(main, chooser, max_steps=case.get('max_steps', 12000))
     finally:
         CTX = None
+    if e is None and s.deadlock_info:
+        # the scheduler found a deadlock / ran out of steps, but the unwinding let main() return
+        e = detsched.Deadlock(s.deadlock_info)
     # `box.n += 1` reads and writes within one line: drop the read that belongs to the increment,
     # what remains of the `ncmp` events is the separate line `if box.n == self.n_forks`
     evs = []
